@@ -33,13 +33,22 @@ STRENGTH = {
  "C18-w4-2": ("C18", "part C site typegetter: panic in the injected UpkeepTypeGetter while proposalQueue.Dequeue calls it; Observation calls that never return are a violation"),
  "C20-w4-2": ("C20", "race stress walks the perform history of an upkeep performed in every second block"),
  "C20-w4-3": ("C20", "simulated plans carry jitters of every magnitude, incl. sub-millisecond"),
+ "C04-w5-1": ("C04", "(added after reading the seeding agent's report and before the first run, which therefore already caught it) an earlier round is handed to the SAME plug-in instance first: families previous-round-*, random"),
+ "C19-w5-2": ("C19", "the report tracker is polled after deliveries, not only at the end: an earlier poll must not colour a later one"),
+ "C12-w5-1": ("C12", "family one-batch-outlasts-the-process-limit-*: the runner returns the completed batches' results at the observer's 20 s limit with a nil error; they are routed"),
+ "C16-w5-1": ("C16", "observation bytes are compared with a private copy after three later observations of the same process (another block number of the same length)"),
+ "C11-w5-2": ("C11", "slices handed out by ProposalQueue.Dequeue are re-read after the later operations of the case and judged with their later content"),
+ "C17-w5-2": ("C17", "an earlier observation of the same staged block precedes the accepts / logs that arrive after sampling"),
+ "C01-w5-2": ("C01", "family thirty-quorum-results-with-70KB-perform-data (three disjoint pairs of oracles, every observation valid and under its limit)"),
+ "C15-w5-1": ("C15", "one plug-in instance lives for the whole run; ReportingPlugin.ValidateObservation under one (sequence number, oracle) must give the decoder's verdict for every message"),
+ "C03-w5-2": ("C03", "family two-versions-of-a-unit-with-another-unit-between (one log upkeep, log A at quorum at check blocks 100 and 102, log B at 99 / 101 / 103)"),
  "C14-w4-1": ("C14", "family long-job-idle-then-burst (per-caller start delays): a long job, seconds of idleness, then a burst"),
 }
 res = {}
 for f in glob.glob("/tmp/w%s/res-*.txt" % WAVE):
     for l in open(f):
         m = re.match(r"(C\d\d)-w%s-(\d): RESULT (.*)" % WAVE, l)
-        if m:
+        if m and (m.group(1), m.group(2)) not in res:  # the first run counts; re-runs after strengthening are in STRENGTH
             res[(m.group(1), m.group(2))] = m.group(3)
 for (p, k), r in sorted(res.items()):
     sid = "%s-w%s-%s" % (p, WAVE, k)
